@@ -511,6 +511,51 @@ pub fn part_serde(args: &Args) -> Part {
     Part { name: "serde-roundtrip", out, bounds: json!({"tables": ntab, "pipelines": pls, "check": "serde_json::from_str(serde_json::to_string(e)) has the same variables and, decided by the solver, the same value as the tree"}) }
 }
 
+/// C15: "the same result" includes the error outcome: with a wrong number of values the consuming variants fail
+/// exactly when the borrowing evaluation fails (path-level).
+pub fn part_consuming_arity(_args: &Args) -> Part {
+    let t0 = Instant::now();
+    let mut out = empty_out();
+    oracle::init_solver(10_000);
+    let _ = std::panic::take_hook();
+    std::panic::set_hook(Box::new(|_| {}));
+    let tab = families::generic_table(&[0, 1, 2], 0, 0, false);
+    table::set_table(&tab);
+    let exprs = ["1", "1&2", "x", "x&y", "x&x&y", "y%x-z", "sin(a)&b%c-d&e", "x&1&y&2&x", "v0&v1&v2&v3&v4&v5&v6&v7&v8&v9&v10&v11&v12&v13&v14&v15&v16&v17"];
+    for text in exprs {
+        for wo in [false, true] {
+            sym::reset_arena();
+            let f = if wo { Flat::<Sym, SymOps>::parse_wo_compile(text).unwrap() } else { Flat::<Sym, SymOps>::parse(text).unwrap() };
+            let n = f.var_names().len();
+            for len in 0..=n + 3 {
+                out.stats.programs += 1;
+                out.stats.vcs += 2;
+                out.stats.note_text(len as u64, text);
+                let vals = |l: usize| -> Vec<Sym> { (0..l).map(|i| Sym::var(&format!("val{i}"))).collect() };
+                let r = catch_unwind(AssertUnwindSafe(|| (f.eval(&vals(len)).is_ok(), f.eval_vec(vals(len)).is_ok(), f.eval_iter(vals(len).into_iter()).is_ok())));
+                match r {
+                    Ok((b, v, i)) => {
+                        for (name, got) in [("eval_vec", v), ("eval_iter", i)] {
+                            if got != b {
+                                out.stats.violations += 1;
+                                out.findings.push(mk_finding("arity", if wo { "flat_wo" } else { "flat" }, &tab, text, None, format!("{got}"), format!("{b}"), format!("{name} with {len} values for {n} variables is_ok() = {got}, eval is_ok() = {b}")));
+                            }
+                        }
+                    }
+                    Err(_) => {
+                        out.stats.violations += 1;
+                        out.stats.panics += 1;
+                        out.findings.push(mk_finding("panic", "flat", &tab, text, None, String::new(), String::new(), format!("panic with {len} values")));
+                    }
+                }
+            }
+        }
+    }
+    let _ = std::panic::take_hook();
+    out.wall_s = t0.elapsed().as_secs_f64();
+    Part { name: "consuming-arity", out, bounds: json!({"expressions": exprs, "lengths": "0..=n+3 values for n variables, folded and unfolded form", "check": "eval_vec(values).is_ok() == eval_iter(values).is_ok() == eval(&values).is_ok() (path-level, no solver)"}) }
+}
+
 /// C15: the value of a variable that occurs exactly once is moved, not cloned.
 pub fn part_clone_counts(args: &Args) -> Part {
     let t0 = Instant::now();
